@@ -416,7 +416,7 @@ def shared(ctx):
     """the per-transaction acceptance conditions named by the property: balanced (C01), authorised (C04), unlocked (C13), fee-paying (C05); order (C03)"""
     from rules.engine import core
     from rules.props import c01, c03, c04, c05, c13
-    core.import_rules(ctx, [c01.r1_gate_coverage, c01.r3_equality], "X01")
+    core.import_rules(ctx, [c01.r1_gate_coverage, c01.r2_exemption_table, c01.r3_equality], "X01")    # "balanced": which (kind, denomination) cells skip the in/out comparison
     core.import_rules(ctx, [c03.r2_batch_commutativity], "X03")
     core.import_rules(ctx, [c04.r1_no_bypass, c04.r2_verdict], "X04")
     core.import_rules(ctx, [c05.r1_fee_gate], "X05")
